@@ -186,9 +186,27 @@ pub fn exec_case(prop: &Property, scenario: u32, input: &[u8], strict: bool) -> 
             format!("{id}.panic")
           };
           o.nontrivial = true;
+          // key of a panic: where (first rustdds function on the stack) and what (the message
+          // without its numbers), so that another kind of panic in the same function is not
+          // taken for a listed known finding
+          let key = if clause.ends_with(".tick-budget") {
+            rec.frame.clone()
+          } else {
+            let kind: String = rec
+              .message
+              .chars()
+              .filter(|ch| ch.is_ascii_alphabetic() || *ch == ' ')
+              .collect::<String>()
+              .split_whitespace()
+              .take(7)
+              .collect::<Vec<_>>()
+              .join("_")
+              .to_lowercase();
+            format!("{}#{}", rec.frame, kind)
+          };
           o.violate(
             &clause,
-            &rec.frame,
+            &key,
             format!(
               "panic at {}:{} in {}: {}; stack: {}",
               rec.file,
